@@ -62,6 +62,15 @@ def check_state(state, check_names=True):
                         name = sm.get_event_name_from_element(state, fs, el)
                     except Exception:
                         name = None
+                    # second opinion: the name of the reference event the MATCHER builds for this statement (another code
+                    # path of the interpreter) - an event with that name is what the head is waiting for
+                    try:
+                        ref_name = getattr(sm.get_event_from_element(state, fs, el), "name", None)
+                    except Exception:
+                        ref_name = None
+                    if name is not None and ref_name is not None and name != ref_name:
+                        note("index-name-differs-from-the-matchers-event-name", "%s pos=%d index=%r matcher=%r" % (fs.flow_id, h.position, name, ref_name))
+                    facts["names_cross_checked"] = facts.get("names_cross_checked", 0) + (1 if name is not None and ref_name is not None else 0)
                 expected[(fs.uid, h.uid)] = name
             elif isinstance(el, ast.WaitForHeads):
                 pass
